@@ -142,8 +142,11 @@ def run():
     expect = []           # (description, predicate on event) for every TLC counterexample: must be confirmed
 
     def both(name, canon, doc, tag):
-        return {"tag": tag, "loads": [dict(name=name, canon=canon, doc=doc, unpack=False, mode="fresh"),
-                                      dict(name=name, canon=canon, doc=doc, unpack=True, mode="cached")] +
+        # the first (downloading) request of a respelled name asks for the two columns, the cached one for the array: the flag
+        # must be honoured on the download branch as well (seed C18i: unpacking only where the cache is read)
+        first = tag == "variant"
+        return {"tag": tag, "loads": [dict(name=name, canon=canon, doc=doc, unpack=first, mode="fresh"),
+                                      dict(name=name, canon=canon, doc=doc, unpack=not first, mode="cached")] +
                 ([dict(name=name, canon=canon, doc=doc, unpack=False, mode="after_edit"),
                   dict(name=name, canon=canon, doc=doc, unpack=True, mode="after_edit")] if doc == "bundled" else [])}
 
@@ -152,6 +155,8 @@ def run():
         work.append(both(r["name"], r["name"], r["kind"], "documented"))
         for v in r["variants"]:
             work.append(both(v["name"], r["name"], r["kind"], "variant"))
+        if not r["variants"] and r["kind"] == "remote":
+            work.append({"tag": "documented", "loads": [dict(name=r["name"], canon=r["name"], doc="remote", unpack=True, mode="fresh")]})
     unknown = ["no-such-dataset", "sandvine_nothing", "sandvine", "ams-ix", "mix_it_rome_daily", "ix-br-nowhere_daily",
                "load_dataset", "fetch_ams_ix_daily", "get_data_home", "AMS-IX_DAILY", " ams-ix_daily"]
     unknown = [u for u in unknown if u not in names and all(u not in variants_of(n) for n in names)]
